@@ -13,8 +13,47 @@ import (
 // Monitor is the passive C04 automaton over the recorded request/response
 // stream of one execution (DESIGN.md 5 C04 rules a-h). It judges only what it
 // can derive with certainty from the stream; everything else is left alone.
-func Monitor(h *History, log []RPCRecord, tsos []TSORecord) []sched.Violation {
+func Monitor(h *History, log []RPCRecord, tsos []TSORecord, ticks ...TickRecord) []sched.Violation {
 	var out []sched.Violation
+	// primaries named on the wire by each transaction's lock / prewrite requests, in sending order: the
+	// primary may be chosen anew after a first locking call that locked nothing
+	type named struct {
+		arr     int
+		primary string
+	}
+	namedBy := map[uint64][]named{}
+	for _, r := range log {
+		if r.Req == nil {
+			continue
+		}
+		switch q := r.Req.Req.(type) {
+		case *kvrpcpb.PessimisticLockRequest:
+			namedBy[q.StartVersion] = append(namedBy[q.StartVersion], named{r.ArrSeq, string(q.PrimaryLock)})
+		case *kvrpcpb.PrewriteRequest:
+			namedBy[q.StartVersion] = append(namedBy[q.StartVersion], named{r.ArrSeq, string(q.PrimaryLock)})
+		}
+	}
+	// the primary a keep-alive iteration has to name: the one named by the newest lock / prewrite
+	// request sent before the tick that started the iteration (a heart-beat already under way when
+	// the primary is chosen anew may still name the old one)
+	primaryAtIteration := func(start uint64, hbArr int) (string, bool) {
+		tick := 0
+		for _, t := range ticks {
+			if t.Seq < hbArr && t.Seq > tick && strings.Contains(t.Label, "keepAlive") {
+				tick = t.Seq
+			}
+		}
+		if tick == 0 {
+			return "", false
+		}
+		p, ok := "", false
+		for _, n := range namedBy[start] {
+			if n.arr != 0 && n.arr < tick {
+				p, ok = n.primary, true
+			}
+		}
+		return p, ok
+	}
 	add := func(key, format string, a ...any) {
 		out = append(out, sched.Violation{Key: "c04:" + key, What: short(fmt.Sprintf(format, a...))})
 	}
@@ -329,7 +368,11 @@ func Monitor(h *History, log []RPCRecord, tsos []TSORecord) []sched.Violation {
 			}
 		case *kvrpcpb.TxnHeartBeatRequest:
 			// (f) heart-beats name the primary, never lower the TTL, exceed the age, stop at the end
-			if x, ok := st[q.StartVersion]; ok && x.primary != "" && string(q.PrimaryLock) != x.primary {
+			if want, ok := primaryAtIteration(q.StartVersion, r.ArrSeq); ok {
+				if string(q.PrimaryLock) != want {
+					add("heartbeat-wrong-primary", "transaction start=%d: heart-beat names %q, but the primary named by the transaction's newest lock/prewrite request before this keep-alive iteration began is %q", q.StartVersion, q.PrimaryLock, want)
+				}
+			} else if x, ok := st[q.StartVersion]; ok && x.primary != "" && string(q.PrimaryLock) != x.primary {
 				add("heartbeat-wrong-primary", "transaction start=%d: heart-beat names %q, primary is %q", q.StartVersion, q.PrimaryLock, x.primary)
 			}
 			if q.AdviseLockTtl < lastHB[q.StartVersion] {
